@@ -23,15 +23,14 @@ ASSUMPTIONS = ["exact references: Tangelo's FCISolver / CCSDSolver / mean-field 
                "DMET exactness is only claimed with the fci fragment solver and a fragment+bath space spanning all orbitals",
                "single-fragment DMET is evaluated through _oneshot_loop(0.0): scipy's secant refuses an identically-zero residual"]
 ANCHORS = [
-    ("tangelo/problem_decomposition/oniom/oniom_problem_decomposition.py", "71-112", "atom distribution to fragments"),
+    ("tangelo/problem_decomposition/oniom/oniom_problem_decomposition.py", "distribute_atoms,simulate", "atom distribution to fragments"),
     ("tangelo/problem_decomposition/oniom/_helpers/helper_classes.py", "simulate", "sign of the low-level model energy"),
     ("tangelo/problem_decomposition/oniom/_helpers/helper_classes.py", "relink", "cap placement and group alignment"),
-    ("tangelo/problem_decomposition/dmet/dmet_problem_decomposition.py", "123-156", "atom re-ordering for nested fragment lists"),
+    ("tangelo/problem_decomposition/dmet/dmet_problem_decomposition.py", "__init__", "atom re-ordering for nested fragment lists"),
     ("tangelo/problem_decomposition/dmet/dmet_problem_decomposition.py", "_build_scf_fragments,_oneshot_loop", "bath construction, chemical-potential residual"),
     ("tangelo/problem_decomposition/incremental/incremental_helper.py", "mi_summation", "recursive subtraction of lower-order increments"),
 ]
-REQUIRED = {"oniom_identical_levels": 6, "oniom_whole_system_model": 6, "link_placement": 40, "dmet_exact_embedding": 4, "dmet_electron_count": 6,
-            "dmet_relabelling": 3, "mi_full_order": 500}
+REQUIRED = {"oniom_identical_levels": 4, "oniom_whole_system_model": 4, "link_placement": 40, "dmet_exact_embedding": 2, "dmet_electron_count": 4, "dmet_relabelling": 2, "mi_full_order": 500}
 BUDGET = {"quick": 500, "thorough": 3000}
 
 
